@@ -235,6 +235,9 @@ def correspondence(ctx):
         c05.roundtrip_batch(ctx, drv, tris, scratch, tag="codec", compressed=False)
         c05.repr_stream(ctx, drv, scratch, 400 if ctx.thorough else 60)
         c05.family_stream(ctx, drv, scratch, 60 if ctx.thorough else 8)
+        # the layout has two array tags only: any other dtype is refused by the writer (binary_output.py:226-231);
+        # version variants are the `rejection` stream below
+        c05.refusal_stream(ctx, drv, scratch, 80 if ctx.thorough else 20, versions=False)
     order_independence(ctx, 300 if ctx.thorough else 40)
     rejection(ctx, drv, 40 if ctx.thorough else 6)
 
@@ -242,7 +245,7 @@ def correspondence(ctx):
 RULE = ("history: 5 shipped .trib files + pinned corpus of generated files (bytes and cell-by-cell dumps recorded once "
         "from the verified tree); fresh random triangles as in C05 cross-checked in both directions against the "
         "independent codec; random permutations/iterables of the same cells; bad-magic/other-version variants of valid "
-        "files. distinct = distinct file contents / raw dump; non-trivial = holds a cell or is a rejection variant")
+        "files; arrays of a dtype other than int64/float64 (float32, int32, bool, uint8, ...) refused by the writer. distinct = distinct file contents / raw dump; non-trivial = holds a cell or is a rejection variant")
 
 if __name__ == "__main__":
     if len(sys.argv) > 1 and sys.argv[1] == "--record":
